@@ -15,10 +15,15 @@ THEOREM_MODULES = ["WrapModel.Props.C08"]
 
 
 def projection(cpp):
-    """declaration-level lines only (no member lines): which instantiations exist, order, names, C++ references"""
+    """which instantiations exist, order, names, C++ references: declaration-level lines, and of the member lines (member-level
+    instantiations of constructors, methods, static methods) the name and the C++ reference `name<args>`"""
     out = []
     for l in cpp.split("\n"):
-        if not l or l.startswith("  "):
+        if not l:
+            continue
+        if l.startswith("  "):
+            if l[2] in "KMS":
+                out.append(" | ".join(l.split(" | ")[:2]))
             continue
         f = l.split(" | ")
         out.append(" | ".join(f[:3]) if l[0] in "CFD" else l)
